@@ -110,6 +110,11 @@ def o_history(case):
         return _mkhash(kind, labels[i - 1] if i >= 1 else i)
 
     anchor0 = node_hash(0)
+    # "wscale": every weight is that much larger (2^53, 2^64, ...): chains of equal length then differ in total weight by
+    # less than one part in 2^53, so the choice between them is only right in exact integer arithmetic
+    wscale = case.get("wscale", 0)
+    if wscale:
+        forest = [[p, w + wscale] for p, w in forest]
     hdrs = [Header(node_hash(i + 1), node_hash(forest[i][0]), forest[i][1]) for i in range(n)]
     by_hash = dict((h.hash(), h) for h in hdrs)
     name = dict((h.hash(), "n%d" % (i + 1)) for i, h in enumerate(hdrs))
@@ -288,6 +293,8 @@ def o_history(case):
         if len(model.best_chains()) > 1:
             labs.add("tie")
     labs.add("kind=" + kind)
+    if wscale:
+        labs.add("weights>=2^53")
     labs.add("n<=3" if n <= 3 else "n4-8" if n <= 8 else "n9-12")
     if -1 in [f[0] for f in forest] or -2 in [f[0] for f in forest]:
         labs.add("has-unknown-root")
@@ -371,6 +378,11 @@ def cases_exhaustive_lock(tier):
 # ------------------------------------------------------------------------------------------ generated histories
 
 
+# realistic difficulties are far above 2^53: with such an offset on every weight, competing chains of equal length differ
+# by less than double precision resolves
+WSCALES = st.sampled_from([0, 0, 0, 0, 2**53 - 2, 2**53, 2**56 + 1, 2**64, 2**80 + 7])
+
+
 @st.composite
 def s_history(draw):
     n = draw(st.one_of(st.integers(1, 12), st.integers(4, 12)))
@@ -414,7 +426,11 @@ def s_history(draw):
     ops.append(["d", cur])
     for pos, e in extras:
         ops.insert(len(ops) - pos % (len(ops) + 1), e)      # pos 0 = after everything delivered so far
-    return {"kind": kind, "forest": forest, "labels": labels, "ops": ops}
+    case = {"kind": kind, "forest": forest, "labels": labels, "ops": ops}
+    wscale = draw(WSCALES)
+    if wscale:
+        case["wscale"] = wscale
+    return case
 
 
 @st.composite
@@ -449,7 +465,11 @@ def s_lock_scenario(draw):
         ops.append(["d", [x]])
     if draw(st.booleans()):
         ops.append(["dall"])
-    return {"kind": kind, "forest": forest, "labels": labels, "ops": ops}
+    case = {"kind": kind, "forest": forest, "labels": labels, "ops": ops}
+    wscale = draw(WSCALES)
+    if wscale:
+        case["wscale"] = wscale
+    return case
 
 
 @st.composite
